@@ -383,3 +383,43 @@ pub fn int_value(major: u8, arg: u64) -> i128 {
 pub fn frame_len_prefix(n: u32) -> [u8; 4] {
     [(n >> 24) as u8, (n >> 16) as u8, (n >> 8) as u8, n as u8]
 }
+
+/// R5: IEEE 754 round-to-nearest-even conversion binary32 -> binary16 on bit patterns
+/// (the textbook integer algorithm: shift the significand, round on the discarded bits,
+/// let the carry ripple into the exponent).  NaN maps to a quiet NaN with the sign kept.
+pub fn f32_to_half_rne(x: u32) -> u16 {
+    let sign = ((x >> 16) & 0x8000) as u16;
+    let e = ((x >> 23) & 0xff) as i32;
+    let m = x & 0x7f_ffff;
+    if e == 0xff {
+        return if m == 0 { sign | 0x7c00 } else { sign | 0x7e00 | ((m >> 13) as u16 & 0x3ff) };
+    }
+    // unbiased exponent
+    let ue = e - 127;
+    if ue > 15 {
+        return sign | 0x7c00; // > 65504 by more than the rounding window: overflow
+    }
+    if ue >= -14 {
+        // normal half: 10 mantissa bits, 13 discarded
+        let he = (ue + 15) as u32;
+        let base = (he << 10) | (m >> 13);
+        let rest = m & 0x1fff;
+        let up = rest > 0x1000 || (rest == 0x1000 && (base & 1) == 1);
+        // carry may ripple into the exponent and up to infinity (0x7c00): correct per IEEE
+        return sign | (base + up as u32) as u16;
+    }
+    // subnormal half or zero: value = 1.m * 2^ue, unit 2^-24
+    if e == 0 {
+        return sign; // f32 subnormal: far below 2^-25
+    }
+    let full = m | 0x80_0000; // 24 bits, value = full * 2^(ue-23)
+    let shift = (-ue - 1) as u32; // result = full * 2^(ue-23+24) = full >> (-ue-1)
+    if shift > 25 {
+        return sign;
+    }
+    let base = full >> shift;
+    let rest = full & ((1u32 << shift) - 1);
+    let half = 1u32 << (shift - 1);
+    let up = rest > half || (rest == half && (base & 1) == 1);
+    sign | (base + up as u32) as u16
+}
